@@ -21,7 +21,6 @@
 
 from __future__ import annotations
 
-from copy import copy
 from multiprocessing import RLock
 from typing import TYPE_CHECKING
 from typing import Literal
@@ -29,6 +28,7 @@ from typing import cast
 from typing import overload
 
 from gemseo.caches.base_full_cache import BaseFullCache
+from gemseo.utils.data_conversion import deepcopy_dict_of_arrays
 from gemseo.utils.data_conversion import nest_flat_bilevel_dict
 from gemseo.utils.locks import synchronized
 from gemseo.utils.multiprocessing.manager import get_multi_processing_manager
@@ -135,7 +135,7 @@ class MemoryFullCache(BaseFullCache):
         index: int,
     ) -> None:
         data = self.__data[index]
-        data[group] = copy(values)
+        data[group] = deepcopy_dict_of_arrays(values)
         self.__data[index] = data
 
     @property
